@@ -204,6 +204,21 @@ func solveOne(u *UnitResult, o *OblResult, cfg solveConfig) (disagreement string
 			}
 		}
 		cancel()
+		if o.Status == "unknown" {
+			// candidate countermodel: the same query without the global quantified address axioms
+			rq := u.ctx.QueryX(o.Prefix, o.Goal, true, true)
+			if rq != q {
+				rfile := strings.TrimSuffix(file, ".smt2") + ".relaxed.smt2"
+				if os.WriteFile(rfile, []byte(rq), 0o644) == nil {
+					r := runSolver(solvers[0], rfile, cfg.timeoutS)
+					o.Tried = append(o.Tried, solvers[0].name+"(relaxed):"+r.verdict)
+					if r.verdict == "sat" {
+						o.Status, o.Backend, o.Model, o.Output = "failed", solvers[0].name+"(relaxed: candidate countermodel)", r.output, r.output
+						o.Relaxed = true
+					}
+				}
+			}
+		}
 		o.Ms = time.Since(t0).Milliseconds()
 		return ""
 	}
